@@ -2,6 +2,7 @@ package engine
 
 import (
 	"fmt"
+	"go/token"
 
 	"golang.org/x/tools/go/ssa"
 )
@@ -14,19 +15,76 @@ import (
 type PathQuery struct {
 	From       ssa.Instruction
 	StartBlock *ssa.BasicBlock
-	Cut        func(ssa.Instruction) bool
-	Goal       func(ssa.Instruction) bool
-	Prune      func(from, to *ssa.BasicBlock) bool
+	// StartPred is the block from which StartBlock is entered (resolves phis
+	// in StartBlock); optional.
+	StartPred *ssa.BasicBlock
+	Cut       func(ssa.Instruction) bool
+	Goal      func(ssa.Instruction) bool
+	Prune     func(from, to *ssa.BasicBlock) bool
+	// Assume gives known truth values of boolean SSA values. Branches whose
+	// condition evaluates (through negation, constants, and phis resolved
+	// along the path walked) to a known value are only followed on the
+	// consistent side.
+	Assume map[ssa.Value]bool
+}
+
+type pnode struct {
+	b    *ssa.BasicBlock
+	prev *pnode
+}
+
+// evalBool evaluates a boolean SSA value at the end of the path ending in n.
+func (q PathQuery) evalBool(v ssa.Value, n *pnode, depth int) (val, known bool) {
+	if depth > 8 || v == nil {
+		return false, false
+	}
+	if b, ok := ConstBool(v); ok {
+		return b, true
+	}
+	if a, ok := q.Assume[v]; ok {
+		return a, true
+	}
+	switch x := v.(type) {
+	case *ssa.UnOp:
+		if x.Op == token.NOT {
+			r, k := q.evalBool(x.X, n, depth+1)
+			return !r, k
+		}
+	case *ssa.BinOp:
+		if x.Op == token.EQL || x.Op == token.NEQ {
+			if cb, ok := ConstBool(x.Y); ok {
+				r, k := q.evalBool(x.X, n, depth+1)
+				return (r == cb) == (x.Op == token.EQL), k
+			}
+			if cb, ok := ConstBool(x.X); ok {
+				r, k := q.evalBool(x.Y, n, depth+1)
+				return (r == cb) == (x.Op == token.EQL), k
+			}
+		}
+	case *ssa.Phi:
+		// find where the path entered the phi's block
+		for m := n; m != nil; m = m.prev {
+			if m.b != x.Block() {
+				continue
+			}
+			if m.prev == nil {
+				return false, false
+			}
+			for i, p := range x.Block().Preds {
+				if p == m.prev.b && i < len(x.Edges) {
+					return q.evalBool(x.Edges[i], m.prev, depth+1)
+				}
+			}
+			return false, false
+		}
+	}
+	return false, false
 }
 
 // Find returns a witness path (sequence of instructions of interest: the
 // first instruction of every block traversed and the goal) or nil when every
 // path from the start is cut before reaching a goal.
 func (q PathQuery) Find() []ssa.Instruction {
-	type node struct {
-		b    *ssa.BasicBlock
-		prev *node
-	}
 	var startB *ssa.BasicBlock
 	startI := 0
 	if q.From != nil {
@@ -51,7 +109,7 @@ func (q PathQuery) Find() []ssa.Instruction {
 		}
 		return nil, false
 	}
-	build := func(n *node, goal ssa.Instruction) []ssa.Instruction {
+	build := func(n *pnode, goal ssa.Instruction) []ssa.Instruction {
 		var rev []ssa.Instruction
 		rev = append(rev, goal)
 		for ; n != nil; n = n.prev {
@@ -64,27 +122,42 @@ func (q PathQuery) Find() []ssa.Instruction {
 		}
 		return rev
 	}
-	start := &node{b: startB}
+	start := &pnode{b: startB}
+	if q.From == nil && q.StartPred != nil {
+		start.prev = &pnode{b: q.StartPred}
+	}
 	if g, cut := scan(startB, startI); g != nil {
 		return build(start, g)
 	} else if cut {
 		return nil
 	}
-	seen := map[*ssa.BasicBlock]bool{}
-	// the start block may be re-entered from its head through a loop
-	queue := []*node{start}
-	for len(queue) > 0 {
+	type key struct{ b, pred *ssa.BasicBlock }
+	seen := map[key]bool{}
+	queue := []*pnode{start}
+	steps := 0
+	for len(queue) > 0 && steps < 20000 {
 		n := queue[0]
 		queue = queue[1:]
-		for _, s := range n.b.Succs {
+		steps++
+		var ifi *ssa.If
+		if len(n.b.Instrs) > 0 {
+			ifi, _ = n.b.Instrs[len(n.b.Instrs)-1].(*ssa.If)
+		}
+		for si, s := range n.b.Succs {
 			if q.Prune != nil && q.Prune(n.b, s) {
 				continue
 			}
-			if seen[s] {
+			if ifi != nil && len(q.Assume) > 0 && len(n.b.Succs) == 2 && n.b.Succs[0] != n.b.Succs[1] {
+				if v, known := q.evalBool(ifi.Cond, n, 0); known && v != (si == 0) {
+					continue
+				}
+			}
+			k := key{s, n.b}
+			if seen[k] {
 				continue
 			}
-			seen[s] = true
-			nn := &node{b: s, prev: n}
+			seen[k] = true
+			nn := &pnode{b: s, prev: n}
 			g, cut := scan(s, 0)
 			if g != nil {
 				return build(nn, g)
